@@ -98,7 +98,9 @@ def judge(J64, dname, a, ctx, case, klass):
         G = J @ J.T
         _, rho2 = R.min_norm_point(G)
         sub = max(float(o @ o) - rho2, 0.0)
-        allowance = np.full(m, s * np.sqrt(sub))
+        # |A|^2 - rho^2 is a difference of squares: both are only known to ~ eps m s^2 (rounding of A in its dtype, of the
+        # reference in float64), so the allowance s sqrt(|A|^2 - rho^2) has the floor s sqrt(16 eps m s^2)
+        allowance = np.full(m, s * np.sqrt(sub + 16 * eps * m * s ** 2))
         slop = 64 * eps * s ** 2 * np.sqrt(m) + (1e-7 if dname == "float32" else 1e-14) * s ** 2
         if a.get("epsilon", 1e-3) == 0:
             ctx.count("mgda_suboptimality_bound_checked")
